@@ -449,7 +449,7 @@ def stress_cases():
     # pattern of  a -> 1 <- b, 1 -> 2 -> ... -> N, N -> x, N -> y, x -> y : the reversible edge x - y sits below a
     # directed path that is N edges deep (rule 2 looks at ancestors / descendants there)
     chain = [(i, i + 1) for i in range(1, N)] + [(N, "x"), (N, "y")]
-    deep = {"D": [("a", 1), ("b", 1)], "U": chain + [("x", "y")], "expectD": chain, "expectU": [("x", "y")]}
+    deep = {"D": [("a", 1), ("b", 1)], "U": chain + [("x", "y")], "expectD": chain, "expectU": [("x", "y")], "slow_ok": True}
     D = []
     for i in range(40):
         for p in ("p", "q"):
@@ -469,11 +469,16 @@ def run_stress(name, spec):
     for a, b in spec["U"]:
         G.add_edge(a, b, "undirected")
     old = signal.signal(signal.SIGALRM, _alarm)
-    signal.setitimer(signal.ITIMER_REAL, TIMEOUT_S)
+    # The ladder is tiny (about 170 edges): only an algorithm that walks its 2^40 directed paths one by one fails
+    # to finish, so a timeout there is reported.  On the deep chain a correct but quadratic / cubic closure is
+    # merely slow: a timeout (60 s cap) is "inconclusive", never a violation - only an exception (RecursionError)
+    # or a wrong result is.
+    chain = spec.get("slow_ok", False)
+    signal.setitimer(signal.ITIMER_REAL, 60 if chain else TIMEOUT_S)
     try:
         pagmod._apply_meek_rules(G)
     except _Timeout:
-        return "does not terminate within %d s" % TIMEOUT_S
+        return "inconclusive" if chain else "does not terminate within %d s" % TIMEOUT_S
     except BaseException as e:
         return "raised %s" % type(e).__name__
     finally:
@@ -490,6 +495,9 @@ def run(ctx):
     ev, out = ctx["ev"], ctx["out"]
     for _name, _spec in stress_cases().items():
         _r = run_stress(_name, _spec)
+        if _r == "inconclusive":
+            ev.count("stress:" + _name + ":not-finished-in-60s(inconclusive)")
+            continue
         ev.count("stress:" + _name + (":ok" if _r is None else ":BAD"))
         if _r is not None:
             out.violation({"kind": "stress", "name": _name},
